@@ -202,6 +202,10 @@ class Run:
         if ip is not None and ip.scope_query:
             ip.in_query = False
             e['fault'] = bool(ip.take_fault())      # an injected OSError hit a read-only call behind this query
+        if st.get('nojudge'):
+            # a query that races with another thread's call on the very same path: its answer depends on the
+            # schedule and is not judged (C09 excludes dependent operations) - what it leaves behind is (D43)
+            return e['res']
         sink = self.sinks.get(threading.get_ident())
         if sink is not None:
             self.gseq += 1
